@@ -106,6 +106,29 @@ pub fn arg_key<T: serde::de::DeserializeOwned + 'static>(a: &[&str], i: usize) -
     }
     Ok(std::rc::Rc::new(de::<T>(&bytes)?))
 }
+// Replies of the merchant ops are kept in memory as well, keyed by their encoding and handed out once: when a customer op is
+// given exactly those bytes it receives the very value the merchant call produced (as two parties in one process would pass it),
+// not a decoded copy - so a reply that the wire decoder refuses (e.g. identity sigma1 from a zero randomiser) still reaches
+// the customer's unblind-and-verify code. Any other bytes are decoded as before.
+thread_local! {
+    static STASH: std::cell::RefCell<std::collections::HashMap<Vec<u8>, Vec<Box<dyn std::any::Any>>>> =
+        std::cell::RefCell::new(std::collections::HashMap::new());
+}
+pub fn stash<T: serde::Serialize + 'static>(t: T) -> String {
+    let bytes = bincode::serialize(&t).expect("serialize");
+    let h = hex(&bytes);
+    STASH.with(|m| m.borrow_mut().entry(bytes).or_default().push(Box::new(t)));
+    h
+}
+pub fn unstash<T: 'static>(bytes: &[u8]) -> Option<T> {
+    STASH.with(|m| {
+        let mut m = m.borrow_mut();
+        let v = m.get_mut(bytes)?;
+        let pos = v.iter().position(|b| b.is::<T>())?;
+        let b = v.swap_remove(pos);
+        b.downcast::<T>().ok().map(|x| *x)
+    })
+}
 pub fn b(x: bool) -> String {
     (if x { "1" } else { "0" }).to_string()
 }
